@@ -346,11 +346,13 @@ type proc struct {
 
 func (p *parent) spawn(s *suite, id int, resume int, skip []int) (*proc, error) {
 	skipArg := "-"
-	if len(skip) > 0 {
-		var ss []string
-		for _, k := range skip {
+	var ss []string
+	for _, k := range skip {
+		if k >= resume { // earlier ones are behind the resume point anyway
 			ss = append(ss, fmt.Sprint(k))
 		}
+	}
+	if len(ss) > 0 {
 		skipArg = strings.Join(ss, ",")
 	}
 	j := filepath.Join(p.tmp, fmt.Sprintf("journal-%s-%d", s.name, id))
@@ -655,10 +657,20 @@ func (p *parent) runSuite(s *suite, nproc int, deadline time.Time) {
 							s.name, b, jb, jc, timedOut, tail(stderr, 600))
 						break
 					}
-					if !p.attribute(s, b, int(jc), timedOut, stderr) {
-						// The death does not belong to the case (it does not die when run
-						// alone): the child's address space ran out on accumulated garbage.
-						// Run the rest of the block again from where results are safe.
+					attributed, alone := p.attribute(s, b, int(jc), timedOut, stderr)
+					if !attributed && alone != nil && alone.Evals == 1 {
+						// The case does not kill a fresh child: what it did there is its
+						// result (typically an allocation of hundreds of MiB that only fits
+						// an empty address space). Take that and go on after it.
+						alone.Block = b
+						p.merge(s, alone)
+						skip = append(skip, int(jc))
+						restarts++
+						continue
+					}
+					if !attributed {
+						// not attributable and not evaluated alone either: run the rest of
+						// the block again from where results are safe
 						flaky[int(jc)]++
 						if flaky[int(jc)] >= 3 {
 							p.r.Infra("%s: case %d:%d: child died there 3 times but never when the case is run alone: %s",
@@ -771,7 +783,7 @@ func describeCase(s *suite, b, cs int, thorough bool) (desc string) {
 // attribute turns the death (or hang) of a child inside a journalled case into a
 // finding. A death is re-run once in a fresh child to make sure it belongs to the
 // case and not to the machine; a hang must reproduce three times.
-func (p *parent) attribute(s *suite, b, cs int, hang bool, stderr string) (attributed bool) {
+func (p *parent) attribute(s *suite, b, cs int, hang bool, stderr string) (attributed bool, alone *blockResult) {
 	replay := map[string]interface{}{
 		"cmd": fmt.Sprintf("worker -only %s:%d:%d -tier %s", s.name, b, cs, tierName(p.thorough)),
 	}
@@ -793,9 +805,9 @@ func (p *parent) attribute(s *suite, b, cs int, hang bool, stderr string) (attri
 		}
 	}
 	for i := 0; i < reruns; i++ {
-		died, hung, se, _ := p.rerunOne(s, b, cs)
+		died, hung, se, br := p.rerunOne(s, b, cs)
 		if hang && !hung || !hang && !died {
-			return false
+			return false, br
 		}
 		if !hang {
 			stderr = se
@@ -804,7 +816,7 @@ func (p *parent) attribute(s *suite, b, cs int, hang bool, stderr string) (attri
 	if hang {
 		p.r.Violation(fmt.Sprintf("hang:%s:block%d", s.name, b),
 			fmt.Sprintf("case %d:%d did not return within the (generous) time limit in 3 separate re-runs; infrastructure-attributed", b, cs), replay)
-		return true
+		return true, nil
 	}
 	what := "fatal"
 	if m := fatalRe.FindString(stderr); m != "" {
@@ -835,38 +847,37 @@ func (p *parent) attribute(s *suite, b, cs int, hang bool, stderr string) (attri
 	first := p.violCnt[key] == 1
 	p.mu.Unlock()
 	if !first {
-		return true
+		return true, nil
 	}
 	replay["case"] = describeCase(s, b, cs, p.thorough)
 	p.r.Violation(key, fmt.Sprintf("child process died in %s case %d:%d (%v): %s\n%s", s.name, b, cs, replay["case"], what, head(mainGoroutine(stderr), 1500)), replay)
-	return true
+	return true, nil
 }
 
 // rerunOne runs a single case in a fresh child.
-func (p *parent) rerunOne(s *suite, b, cs int) (died, hung bool, stderr string, desc string) {
+func (p *parent) rerunOne(s *suite, b, cs int) (died, hung bool, stderr string, alone *blockResult) {
 	pr, err := p.spawn(s, 1000+int(atomic.AddInt64(&p.rerunSeq, 1)), 0, nil)
 	if err != nil {
-		return false, false, "", ""
+		return false, false, "", nil
 	}
 	fmt.Fprintf(pr.stdin, "%d %d\n", b, cs)
 	pr.stdin.Flush()
 	select {
 	case line, ok := <-pr.lines:
 		if ok {
-			var br blockResult
-			json.Unmarshal(line, &br)
+			br := &blockResult{}
+			if json.Unmarshal(line, br) != nil {
+				br = nil
+			}
 			pr.stdinC.Close()
 			<-pr.done
-			if len(br.Samples) > 0 {
-				desc = fmt.Sprint(br.Samples[0])
-			}
-			return false, false, "", desc
+			return false, false, "", br
 		}
 		<-pr.done
-		return true, false, pr.stderr.String(), ""
+		return true, false, pr.stderr.String(), nil
 	case <-time.After(60 * time.Second):
 		pr.kill()
-		return false, true, pr.stderr.String(), ""
+		return false, true, pr.stderr.String(), nil
 	}
 }
 
